@@ -36,6 +36,10 @@ fn gen_hunk(t: &mut Tape, lines_pool: &[&str], old: usize, new: usize) -> Hunk {
     finish_hunk(old, new, lines, frag, false, 1)
 }
 
+fn section_of(kind: SK, name: &str, hunks: Vec<Hunk>) -> Section {
+    Section { kind, old_path: name.to_string(), new_path: name.to_string(), old_mode: "100644".into(), new_mode: "100644".into(), hunks, parents: 1, prefixes: ("a/".into(), "b/".into()) }
+}
+
 fn section(name: &str, hunks: Vec<Hunk>) -> Section {
     Section { kind: SK::Modified, old_path: name.to_string(), new_path: name.to_string(), old_mode: "100644".into(), new_mode: "100644".into(), hunks, parents: 1, prefixes: ("a/".into(), "b/".into()) }
 }
@@ -71,7 +75,7 @@ impl Prop for C15 {
         2500
     }
     fn rule(&self) -> String {
-        "cases = git diff of one file with 1-3 hunks of real code lines (rs, py, c, js, sh, toml, Makefile) x tagged option set (unified or side-by-side; each style with or without `syntax`) x ordered pair of syntax themes of the same light/dark class (or `none`) x a second file name of the same language (other stem/directory; Makefile in two directories) or a name without language plus --default-language. Oracle (both runs decoded by the terminal model): every cell has the same character, background and attributes under both themes; its foreground may differ only where the style of the element that painted it (known from the tag) asks for `syntax`, and equals the configured foreground elsewhere; content rows are cell-for-cell identical after renaming within the language and for an unknown name under the matching default language; the rows of each hunk equal those of the hunk rendered alone. Non-trivial = >=1 row on which the two themes produce different foregrounds; distinct by hash of (input, argv, themes).".to_string()
+        "cases = git diff of one file with 1-3 hunks of real code lines (rs, py, c, js, sh, toml, Makefile) x tagged option set (unified or side-by-side; each style with or without `syntax`) x ordered pair of syntax themes of the same light/dark class (or `none`) x a second file name of the same language (other stem/directory; Makefile in two directories or Makefile vs x.mk), also for an added / deleted file and plain `diff -u` output, and the same section followed by a section of another language or a name without language plus --default-language. Oracle (both runs decoded by the terminal model): every cell has the same character, background and attributes under both themes; its foreground may differ only where the style of the element that painted it (known from the tag) asks for `syntax`, and equals the configured foreground elsewhere; content rows are cell-for-cell identical after renaming within the language and for an unknown name under the matching default language; the rows of each hunk equal those of the hunk rendered alone. Non-trivial = >=1 row on which the two themes produce different foregrounds; distinct by hash of (input, argv, themes).".to_string()
     }
     fn assumptions(&self) -> Vec<String> {
         vec![
@@ -201,6 +205,59 @@ impl Prop for C15 {
                 Failure::new("C15:rename-changes-colouring", format!("renaming `{}` to `{}` (same language) changes hunk row {}: `{}`", name1, name2, i, ra.get(i).map(|r| r.text()).unwrap_or_default()))
                     .with(detail(json!({"renamed_to": name2, "a": ra.get(i).map(|r| format!("{:?}", r.cells.iter().map(|c| (c.text.clone(), c.st.fg)).collect::<Vec<_>>())), "b": rb.get(i).map(|r| format!("{:?}", r.cells.iter().map(|c| (c.text.clone(), c.st.fg)).collect::<Vec<_>>()))}))),
             );
+        }
+        // the same holds for a file that is added or deleted (one side is /dev/null) and for plain
+        // `diff -u` output: the language is that of the name that exists
+        {
+            let kind = *t.pick(&[SK::Added, SK::Deleted, SK::PlainDiffU]);
+            let only = match kind {
+                SK::Added => Some(LK::Plus),
+                SK::Deleted => Some(LK::Minus),
+                _ => None,
+            };
+            let hs: Vec<Hunk> = match only {
+                Some(k) => {
+                    let lines: Vec<HLine> = hunks[0].lines.iter().map(|l| HLine { kind: k, prefix: if k == LK::Plus { "+".into() } else { "-".into() }, text: l.text.clone(), no_newline_after: false }).collect();
+                    vec![finish_hunk(if k == LK::Plus { 0 } else { 1 }, if k == LK::Plus { 1 } else { 0 }, lines, String::new(), false, 1)]
+                }
+                None => hunks.clone(),
+            };
+            let (oa, ob) = match (run(&cfg1, &bytes_of(&section_of(kind, &name1, hs.clone())), ctx), run(&cfg1, &bytes_of(&section_of(kind, &name2, hs.clone())), ctx)) {
+                (Ok(a), Ok(b)) => (a, b),
+                (Err(f), _) | (_, Err(f)) => return Verdict::Fail(f),
+            };
+            let (xa, xb) = (content_rows(&oa), content_rows(&ob));
+            if xa.len() != xb.len() || xa.iter().zip(xb.iter()).any(|(a, b)| a.cells != b.cells) {
+                let i = xa.iter().zip(xb.iter()).position(|(a, b)| a.cells != b.cells).unwrap_or(0);
+                return Verdict::Fail(
+                    Failure::new("C15:rename-changes-colouring", format!("{} file: naming it `{}` instead of `{}` (same language) changes hunk row {}: `{}`", kind.name(), name2, name1, i, xa.get(i).map(|r| r.text()).unwrap_or_default()))
+                        .with(json!({"case": exec::case_json(&cfg1, &bytes_of(&section_of(kind, &name1, hs.clone()))), "renamed_to": name2})),
+                );
+            }
+            ctx.class(&format!("rename-relation:{}", kind.name()));
+            // what follows does not change how this file's lines are coloured: the same section
+            // followed by a section of another language
+            let (lang_b, pool_b) = code::lang(t);
+            if lang_b != lang {
+                let (nb, _) = code::two_names(t, lang_b);
+                let hb = gen_hunk(t, pool_b, 3, 3);
+                let follow_kind = if kind == SK::PlainDiffU { SK::PlainDiffU } else { SK::Modified };
+                let mut both = bytes_of(&section_of(kind, &name1, hs.clone()));
+                both.extend_from_slice(&bytes_of(&section_of(follow_kind, &nb, vec![hb])));
+                let ob2 = match run(&cfg1, &both, ctx) {
+                    Ok(o) => o,
+                    Err(f) => return Verdict::Fail(f),
+                };
+                let xc = content_rows(&ob2);
+                if xc.len() < xa.len() || xa.iter().zip(xc.iter()).any(|(a, b)| a.cells != b.cells) {
+                    let i = xa.iter().zip(xc.iter()).position(|(a, b)| a.cells != b.cells).unwrap_or(0);
+                    return Verdict::Fail(
+                        Failure::new("C15:next-section-changes-colouring", format!("`{}` ({}): hunk row {} `{}` is coloured differently when a section for `{}` follows", name1, kind.name(), i, xa.get(i).map(|r| r.text()).unwrap_or_default(), nb))
+                            .with(json!({"case": exec::case_json(&cfg1, &both)})),
+                    );
+                }
+                ctx.class("followed-by-other-language");
+            }
         }
         // a name without language falls back to the configured default language
         if t.chance(1, 3) && lang != "Makefile" {
